@@ -157,9 +157,9 @@ def check_conversion(ctx, prog, rule, label, path, src, kind, dst, gargs=None, s
 
 def quire_round_trip(ctx, prog):
     """C12: Q::from(p).to_posit() == p for every P8E0 / P16E1 bit pattern, per regime cell"""
-    from quire_common import Q8, Q16
+    from quire_common import Q8, Q16, Q32
     total = 0
-    for q in (Q8, Q16):
+    for q in (Q8, Q16, Q32):
         pty = q.pty
         frm = None
         for im in prog.impl_index.get(('core::convert::From', q.tykey), []):
@@ -169,7 +169,7 @@ def quire_round_trip(ctx, prog):
         if not frm or not tp:
             ctx.finding('ANCHOR', '%s round trip' % q.name, 'missing', 'From<P> for Q / to_posit not found')
             continue
-        I = Interp(prog, max_steps=200000)
+        I = Interp(prog, max_steps=400000)
         cells = proved = 0
         for negative in (False, True):
             for k, e, fl, known in regime_cells(pty.bits, pty.es):
